@@ -67,7 +67,14 @@ impl FeatureState for CompatibilityState {
         }
     }
 
-    fn accept_solution_state(&self, _: &mut SolutionContext) {}
+    fn accept_solution_state(&self, solution_ctx: &mut SolutionContext) {
+        // NOTE jobs can leave a tour without any insertion following, so refresh the value of changed tours
+        solution_ctx
+            .routes
+            .iter_mut()
+            .filter(|route_ctx| route_ctx.is_stale())
+            .for_each(|route_ctx| self.accept_route_state(route_ctx));
+    }
 }
 
 fn get_route_compatibility(route_ctx: &RouteContext) -> Option<String> {
